@@ -121,7 +121,7 @@ pub async fn run(cfg: RunCfg) -> RunResult {
     let mut m = Model { namespaces: BTreeSet::new(), tables: BTreeSet::new() };
     let nested = manifest; // child namespaces need the manifest table
     let nsteps = {
-        let d = rng.range(5, 14) as u64;
+        let d = if cfg.thorough() { rng.range(10, 30) } else { rng.range(5, 14) } as u64;
         cfg.max_steps.map(|x| x.min(d)).unwrap_or(d)
     };
     for step in 0..nsteps {
